@@ -2,6 +2,7 @@
 #![allow(dead_code, unused_imports)]
 
 mod alloc;
+mod clock;
 mod engines;
 mod gen;
 #[path = "/repo/ragc-cli/src/main.rs"]
@@ -594,6 +595,14 @@ fn main() {
         "minimise" => minimise_cmd(&rest),
         "transcript" => transcript_cmd(&rest),
         "selftest" => selftest(&rest),
+        // `sleeptest`: a literal std::thread::sleep must be intercepted (see clock.rs)
+        "sleeptest" => {
+            let t = Instant::now();
+            std::thread::sleep(std::time::Duration::from_secs(3));
+            let ms = t.elapsed().as_millis();
+            println!("std::thread::sleep(3 s) returned after {ms} ms");
+            if ms < 500 { 0 } else { 2 }
+        }
         other => {
             eprintln!("unknown subcommand {other}");
             2
